@@ -233,6 +233,30 @@ class Ctx:
         pat = r"\b(Admitted|admit|Axiom|Axioms|Parameter|Parameters|Conjecture|Conjectures|Abort All)\b|Unset Guard|Unset Positivity|Unset Universe|bypass_check|type-in-type|impredicative-set|Admit Obligations"
         rc, out = sh(['grep', '-rnE', pat, '--include=*.v'] + files + ['_CoqProject'], cwd=COQ)
         lines = [l for l in out.splitlines() if l.strip() and not re.search(r'\(\*.*hygiene-ok.*\*\)', l)]
+        # a Variable / Hypothesis / Context outside any Section declares an axiom
+        for f in (files if prop_file else []):
+            try:
+                txt = open(os.path.join(COQ, f)).read()
+            except OSError:
+                continue
+            out_c, i, lvl = [], 0, 0
+            while i < len(txt):
+                if txt.startswith('(*', i):
+                    lvl += 1; i += 2; continue
+                if txt.startswith('*)', i) and lvl > 0:
+                    lvl -= 1; i += 2; continue
+                if lvl == 0:
+                    out_c.append(txt[i])
+                i += 1
+            depth = 0
+            for n, line in enumerate(''.join(out_c).split('\n'), 1):
+                st = line.strip()
+                if re.match(r'^Section\s+\w+\s*\.', st):
+                    depth += 1
+                elif re.match(r'^End\s+\w+\s*\.', st) and depth > 0:
+                    depth -= 1
+                elif depth == 0 and re.match(r'^(Variable|Variables|Hypothesis|Hypotheses|Context)\b', st):
+                    lines.append('%s: %s outside a Section: %s' % (f, st.split()[0], st[:80]))
         return '\n'.join(lines[:20]) if lines else ''
 
     def ocaml_driver(self, pid=None):
